@@ -65,6 +65,8 @@ func C13(c *Ctx) {
 
 func C15(c *Ctx) {
 	R15Socks(c)
+	R15FieldLoops(c)
+	R15TypedNil(c)
 	R15ClosePropagation(c)
 	R8CmpWidth(c, 1)
 	R15FailureCloses(c)
@@ -87,10 +89,15 @@ func C04(c *Ctx) {
 	R4PivotQueue(c)
 	R4Lockset(c, sharedAgentQueue, 2)
 	R6Issue(c)
+	// a queued relay task keeps its bytes until it is serialised: the chunk must be private to the task
+	R15PrivateChunk(c)
 }
 
 func C16(c *Ctx) {
 	R12Registry(c)
+	R12NameOfKind(c)
+	R12RemoveWrites(c)
+	R12StartBeforeRegister(c)
 	R12OwnerEndpoints(c)
 	R12EndpointKey(c)
 	R12RemoveIdempotent(c)
@@ -142,8 +149,11 @@ func C01(c *Ctx) {
 	R1PivotJobShape(c)
 	R1Asserts(c, scope, "", 30)
 	R1Nil(c, scope, "", 10)
+	R1ExistPairs(c)
 	R1AgentsAppendOnly(c)
 	R1PivotAddJobPre(c)
+	// the parent-chain walks (R1-loops) terminate because the pivot graph has no cycle
+	R9CycleGuard(c)
 	R1Explicit(c, scope, "")
 	R1Loops(c, scope, "")
 	R1RejectEffects(c)
